@@ -624,14 +624,17 @@ PROPS = {
         runs=[dict(comp="recover", quick=500, thorough=10000)],
         classify=cls_c12,
         nontrivial=lambda line: '"op":"reset"' in line and '"kind":"alloc"' in line,
-        rule="recover: a generated full-stack history (general / gang / preemption generators of the core component, 4..113 operations or to its end; half of the histories also stop with probability 0.35 "
+        rule="recover: a generated full-stack history (general / gang / preemption generators of the core component, 4..113 operations or to its end; most histories also stop with some probability "
              "right after the core announced a release that needs the shim's confirmation: placeholder replacement in flight, placeholder timeout, preemption) runs on a real ClusterContext A. A recorder keeps what the SHIM knows, built only from "
              "the requests it sent and the messages the core sent: registered nodes with latest capacity and drain state, accepted and not removed applications with their submission, allocations announced by the core or placed by the shim and not released, "
              "foreign allocations, outstanding asks, releases announced but not confirmed. A is stopped; the book is replayed on a FRESH ClusterContext B in one of four orders (k8shim: nodes, applications, allocations, foreign, asks; "
-             "per application; random order respecting node/application before allocation; 6%: any order), force-create on all applications or only on those with a bound allocation, nodes registered directly or draining and enabled afterwards, "
-             "pods under deletion replayed or already gone, with B's configuration = A's (45%), tighter quotas on every queue plus a wildcard user limit, a queue subtree removed with and without queue creation by the rules, fair-sorted leaves. "
-             "One line carries the dump of A, B's queue tree before the replay, every replayed item with B's answer and the application's placement, and the dump of B; 4..11 operations on B follow (scheduling cycles, new asks, releases, confirmations). "
-             "The driver replays the items on the model and compares answers and all ledgers with B, evaluates acceptance, B's books, B's totals against the accepted items and A against B object by object, and the capacity/quota/accounting clauses of the full-stack driver on the operations that follow. "
+             "per application; random order respecting node/application before allocation; 6%: any order), in 40% of the histories half of the bound pods are first replayed as outstanding asks and reported as bound later in the replay "
+             "(the 'ask -> allocation' transition branch of UpdateAllocation), force-create on all applications or only on those with a bound allocation, nodes registered directly or draining and enabled afterwards, "
+             "pods under deletion replayed or already gone, with B's configuration = A's (35%), tighter quotas on every queue plus a wildcard user limit, quota preemption enabled with a quota.preemption.delay on the first-level queues (inherited) or on the leaves and maxima of {1,1} "
+             "(the first replayed allocation arms the timer inside the unchecked Queue.IncAllocatedResource) or {3..10} (a later allocation, an RM placement or a resize arms it), a queue subtree removed with and without queue creation by the rules, fair-sorted leaves. "
+             "One line carries the dump of A, B's queue tree before the replay, every replayed item with B's answer and the application's placement, and the dump of B; 8..21 operations on B follow: scheduling cycles, new asks, "
+             "RM placement of outstanding asks (the shim reports the ask as bound on a node of its choice), in-place resizes up and down of bound allocations (and of asks), releases, node decommission, drain/undrain, confirmations. "
+             "The driver replays the items on the model and compares answers and all ledgers with B, evaluates acceptance, B's books, B's totals against the accepted items and A against B object by object, and after every following operation the capacity/quota/accounting clauses of the full-stack driver (C01 node ledger and bind guards, C02, C03 I1-I11 incl. every queue level, C05). "
              "non-trivial = a recovery line that replays at least one bound allocation; distinct = distinct protocol lines",
         trusted=["one partition, one goroutine; the harness calls the handler functions of ClusterContext directly; core A is stopped (ClusterContext.Stop) before core B is created in the same process (the user/group manager is a process-wide singleton and is cleared, as a restart does)",
                  "the shim is the simulated shim of the full-stack harness: it does not react to application state updates (a real shim deletes placeholder pods of a Resuming application); its book is the source of the replay",
@@ -643,7 +646,7 @@ PROPS = {
         level_text="Lean 4 proofs over the replay model (nodes, applications after placement, the 'new allocation already assigned' branch of UpdateAllocation, foreign allocations, asks — built from the CoreOps operations) for ALL queue trees, snapshots and replay orders: "
                    "the rebuilt state has balanced books (application = sum of its items, queue = sum of the applications at or below it, node ledger); every per-application and per-node total of the rebuilt state is the total recomputed from the accepted items and does not depend on the order; "
                    "a replay whose item list satisfies the order condition alone (every id / key used once, a node before the allocations and foreign pods on it, an application before its allocations and asks, positive resources, applications placed in a leaf, force-created or without task-group request) is accepted completely whatever the queue maxima, node capacities or user limits are (no such quantity occurs in the hypotheses); "
-                   "and therefore an old core with balanced books (C03) and the restarted core agree on every per-application, per-queue and (given the node view I7/I8 of C03) per-node allocated and pending total, up to placeholder replacements in flight, which are stated exactly (old pending + in flight = new pending; old node allocated = new + in flight). A force-created application with a new id whose queue exists as a leaf is accepted whatever its task-group request, the queue maxima and the sort policy are (full strength since fix 70f7a44; the former refutation witnesses are regression examples and corpus inputs). "
+                   "and therefore an old core with balanced books (C03) and the restarted core agree on every per-application, per-queue and (given the node view I7/I8 of C03) per-node allocated and pending total, up to placeholder replacements in flight, which are stated exactly (old pending + in flight = new pending; old node allocated = new + in flight). The transition branch (a key replayed as an ask, reported as bound later) keeps the books of every well-formed state. A force-created application with a new id whose queue exists as a leaf is accepted whatever its task-group request, the queue maxima and the sort policy are (full strength since fix 70f7a44; the former refutation witnesses are regression examples and corpus inputs). "
                    "Tie: two-execution differential correspondence of the replay model against a real restarted ClusterContext plus the same clauses evaluated on the implementation's dumps.",
         level_note="trusted: Lean kernel; hand-written replay model tied by correspondence only; placement taken from the implementation; simulated shim; exact arithmetic; single partition, single goroutine; user trackers are checked by monitors (usage = sum of the user's applications), not stepped by the model",
         technique="Lean 4 invariant proof over a replay model (induction over the replayed items, order independence) + two-execution differential correspondence on real ClusterContexts",
@@ -722,6 +725,9 @@ PROPS = {
              "calls into code outside the repository call back only what is handed over; same-class edges refined by access paths into same/up/down/unknown) is judged by the driver against the rank and the pattern lists of YkModel/LockPolicy.lean: every edge outside the exclusion list must be ranked; "
              "(2) replays on the real code, each in a child process with go-deadlock enabled, a timeout and a goroutine dump: 150 rounds of a required-node ask cancelling another application's reservation under concurrent RM traffic and readers (excluded edge: must not block); "
              "3000 rounds of add application / add ask / remove application against the scheduling loop (known finding: orphan allocations); and the regression scenarios of repaired defects that must run clean: a configuration reload that drops a partition (must return, partition gone), rejections against readers of the rejected applications, removal of a user's last application against the scheduling loop; "
+             "(2b) concurrent FINAL-STATE scenarios (harness/lockfinal.go), each in a child process, a few seconds: 2-3 goroutines (scheduling-loop style, RM-handler style, node handler) released at the same instant by a spin barrier for thousands of rounds drive the real objects from a clean state, then the settled state is compared with the sum of what they did: "
+             "first touch of fresh users / groups / queue paths through ugm.Manager (Headroom, CanRunApp, IncreaseTrackedResource; after the matching decreases the trackers are gone), release of a user's last application against the first allocation of the next, queue allocated over root.parent.leaf (TryInc / forced Inc / Dec), node allocations (TryAdd / add / remove / foreign / capacity), "
+             "get-or-create of a dynamic queue and of the recovery queue by concurrent submissions (one object per path, every application in it), and asks / allocations / releases / node updates on a partition against the scheduling loop (partition counters = node allocations = application allocations = queue = tracked user usage; all zero after removing the applications); "
              "(3) thorough only, EVIDENCE ONLY: the concurrent full stack with the threading of Scheduler.StartService (scheduling loop, ONE application+allocation handler, node handler, configuration reloads, real placeholder/state timers, expired-application cleaner, 4 DAO readers) for VERIF_STRESS_SECONDS under -race with go-deadlock enabled; data race reports (one class per pair of conflicting functions), go-deadlock reports, runtime faults, goroutines of the core still blocked on a lock at quiescence, and the full-stack monitors on the final dump. "
              "Every line is non-trivial; distinct = distinct protocol lines",
         trusted=["translator T4 (extract/lockorder.go): SSA construction and the VTA call graph of golang.org/x/tools v0.29.0 (sound up to reflection / unsafe); function values kept by objects of types outside the repository are followed only when handed to a constructor of that type (fsm.NewFSM, btree.New..) and keyed by the struct field that keeps the object; "
